@@ -321,6 +321,23 @@ func init() {
 						}
 						c.Cover(fmt.Sprintf("longvalues/%s/%s", name, map[bool]string{true: "in-range", false: "truncated-consistently"}[n <= 65535]))
 					}
+					// every length the containers REPORT agrees with what they emit: Option.Len against the value octets of
+					// Option.Bytes, Options.Len against len(Serialize)
+					c.Evals(1)
+					if pan, v, st := fw.Try(func() {
+						o := smgp.NewOption(smgp.Tag(tag), val)
+						if b := o.Bytes(); len(b) >= 4 && o.Len() != len(b)-4 {
+							c.Failf("reported-length-disagrees/smgp.Option.Len", "a %d-octet value: Option.Len()=%d, Bytes() emits %d value octets", n, o.Len(), len(b)-4)
+						}
+						m := smgp.Options{}
+						m.Add(o)
+						m.Add(smgp.NewOption(smgp.TAG_TP_udhi, []byte{1}))
+						if l, b := m.Len(), m.Serialize(); l != len(b) {
+							c.Failf("reported-length-disagrees/smgp.Options.Len", "a %d-octet value and a 1-octet value: Options.Len()=%d, Serialize() emits %d octets", n, l, len(b))
+						}
+					}); pan {
+						c.Failf("long-value-"+fw.PanicSig(v, st)+"/Len", "Len with a %d-octet value: %v\n%s", n, v, st)
+					}
 				},
 			},
 			{
